@@ -126,6 +126,13 @@ func chainScenarios(tier string, seed int64) []scenario {
 			}
 		}
 	}
+	// own corner: attester slashings over sets that mix slashable validators with an already slashed one, a not
+	// yet activated one (fresh deposit) and an exited + withdrawable one; valid by the specification (the
+	// non-slashable members are skipped)
+	for _, f := range []chain.ForkSchedule{chain.Phase0Only, F(0, 0, 0, 0), F(1, 2, 3, 4), F(0, 1, X, X)} {
+		cfgs = append(cfgs, chainCfg{name: "corner-mixed-attester-slashing", preset: chain.PresetS1, forks: f, validators: 16,
+			genesis: chain.GenesisOpts{PendingDeposits: []chain.DepositSpec{{Key: 16}}}, steps: mixedSlashingSteps()})
+	}
 	for _, ns := range chain.CornerScenarios() {
 		ns := ns
 		g := ns.Genesis
@@ -228,4 +235,38 @@ func initHistory(rec *beaconrec.Recorder, c *chain.Chain, preset string, g chain
 		return err
 	}
 	return rec.InitUpgraded(c.Spec, pre.State, c.State, meta, keys)
+}
+
+// mixedSlashingSteps: validator 3 is slashed as a proposer at slot 3 and exits validator 5 early; later blocks
+// carry attester slashings over {3, 6} (3 already slashed), {9, 16} (16 deposited at slot 1, never activated)
+// and, once 5 is withdrawable, {5, 10}.
+func mixedSlashingSteps() []chain.StepPlan {
+	vi := func(xs ...int) []common.ValidatorIndex {
+		out := make([]common.ValidatorIndex, len(xs))
+		for i, x := range xs {
+			out[i] = common.ValidatorIndex(x)
+		}
+		return out
+	}
+	var steps []chain.StepPlan
+	for sl := 1; sl <= 40; sl++ {
+		st := chain.StepPlan{Slot: common.Slot(sl), Seed: int64(7000 + sl)}
+		switch sl {
+		case 3:
+			st.Block = &chain.BlockPlan{ProposerSlashings: []chain.ProposerSlashingPlan{{Proposer: 3}}}
+		case 6:
+			st.Block = &chain.BlockPlan{AttesterSlashings: []chain.AttesterSlashingPlan{{Indices: vi(3, 6)}}}
+		case 9:
+			st.Block = &chain.BlockPlan{Exits: []chain.ExitPlan{{Validator: 5}}}
+		case 10:
+			st.Block = &chain.BlockPlan{AttesterSlashings: []chain.AttesterSlashingPlan{{Indices: vi(9, 16)}}}
+		case 14:
+			st.Block = &chain.BlockPlan{AttesterSlashings: []chain.AttesterSlashingPlan{{Indices: vi(3, 11), Surround: true}}}
+		case 38:
+			// validator 5: exit epoch 2+1+2 = 5, withdrawable 7: at epoch 9 it is no longer slashable
+			st.Block = &chain.BlockPlan{AttesterSlashings: []chain.AttesterSlashingPlan{{Indices: vi(5, 10)}}}
+		}
+		steps = append(steps, st)
+	}
+	return steps
 }
